@@ -224,7 +224,9 @@ def vhdx_params(draw, conformant=True, small=True):
              meta_before=draw(st.sampled_from([0, 1, 2, 4, 9])),
              meta_after=draw(st.sampled_from([0, 1, 2, 5])),
              tail=draw(st.sampled_from([0, 0, 1, 4096])),
-             fill=draw(st.sampled_from([0, 0, 0, 3])))
+             fill=draw(st.sampled_from([0, 0, 0, 3])),
+             pad=draw(st.sampled_from(['foreign', 'foreign', 'zero', 'ones',
+                                       'near'])))
     offs = [256 * KI, 256 * KI, 320 * KI] if small else \
         [256 * KI, MI, 2 * MI, 3 * MI]
     p['meta_offset'] = draw(st.sampled_from(offs))
